@@ -1,6 +1,7 @@
 package zzverif
 
 import (
+	"regexp"
 	"encoding/json"
 	"fmt"
 	"os"
@@ -731,8 +732,11 @@ func c17Check(ctx *Ctx, res *CaseResult, dir string, p *c17Payload, regen *Rand)
 		return out
 	}
 	n := len(p.Rules)
+	npreset := 0
 	if regen != nil {
-		n = 1 + regen.Intn(6)
+		// rules already in the payload are the scenario's set-up; the history is drawn after them
+		npreset = len(p.Rules)
+		n = npreset + 1 + regen.Intn(6)
 	}
 	startBuilders := cloneBuilders(builders)
 	defer func() {
@@ -747,7 +751,7 @@ func c17Check(ctx *Ctx, res *CaseResult, dir string, p *c17Payload, regen *Rand)
 	for i := 0; i < n; i++ {
 		var rs RuleSpec
 		var pkg string
-		if regen != nil {
+		if regen != nil && i >= npreset {
 			bvs := BuildersViewOf(schemas, builders)
 			if len(bvs) == 0 {
 				break
@@ -789,6 +793,25 @@ func c17Check(ctx *Ctx, res *CaseResult, dir string, p *c17Payload, regen *Rand)
 					break
 				}
 			}
+			// after a builder was renamed, a consistent merge_into whose path or source goes
+			// through it: references are followed by object, whatever the builders are called
+			if len(p.Rules) > 0 && p.Rules[len(p.Rules)-1].Scope == "builder" && p.Rules[len(p.Rules)-1].Kind == "rename" && regen.Chance(2, 3) {
+				for try := 0; try < 8; try++ {
+					c := GenRuleSpec(regen, bvs, p.Pkgs[len(p.Pkgs)-1], "builder", "merge_into")
+					if !c.Misconfigured && (c.Source == p.Rules[len(p.Rules)-1].As || try == 7) {
+						rs, pkg = c, p.Pkgs[len(p.Pkgs)-1]
+						break
+					}
+				}
+			}
+			// composed builders live in the plugin's package but build the core object:
+			// the selectors that look at the schema of a builder meet them after a compose
+			if len(p.Rules) > 0 && p.Rules[len(p.Rules)-1].Kind == "compose" && regen.Chance(1, 2) {
+				prev := p.Rules[len(p.Rules)-1]
+				pkg = p.Pkgs[len(p.Pkgs)-1]
+				rs = RuleSpec{Scope: "builder", Kind: Pick(regen, []string{"omit", "rename", "properties", "duplicate"}), SelKind: "by_variant", SelA: prev.SelA,
+					As: "AfterCompose", Props: []FieldSpec{{Name: "someBuilderProp", T: &TypeSpec{K: "string"}}}}
+			}
 			rs.Lang = "all"
 			if regen.Chance(2, 5) {
 				rs.Lang = p.Lang
@@ -821,6 +844,15 @@ func c17Check(ctx *Ctx, res *CaseResult, dir string, p *c17Payload, regen *Rand)
 		}
 		if ex.Err != nil {
 			ctx.Count("rule_error "+kind, 1)
+			// a merge_into whose path was drawn along reference fields of the builders at hand,
+			// towards the builder of the object found there, has no reason to fail on its path
+			if rs.Kind == "merge_into" && !rs.Misconfigured && rs.PathDirect && (strings.Contains(ex.Err.Error(), "could not make path") || strings.Contains(ex.Err.Error(), "could not be resolved")) {
+				out["unexpected-error|"+kind] = fmt.Sprintf("step %d %s %s: a consistent rule fails: %s", i, kind, truncate(toJSON(rs), 200), truncate(ex.Err.Error(), 200))
+				return out
+			}
+			if ctx.Opt["errtext"] != "" {
+				ctx.Count("rule_error_text "+kind+" misconfigured="+fmt.Sprint(rs.Misconfigured)+": "+truncate(digits.ReplaceAllString(ex.Err.Error(), "N"), 90), 1)
+			}
 			// a failed rule leaves the history where it was - unless it modified its input on the way
 			if toJSON(toGeneric(before)) != beforeSnap {
 				var prev ast.Builders
@@ -864,6 +896,8 @@ func c17Check(ctx *Ctx, res *CaseResult, dir string, p *c17Payload, regen *Rand)
 	return out
 }
 
+var digits = regexp.MustCompile(`[0-9]+`)
+
 func init() {
 	Register(&Property{
 		ID: "C17",
@@ -878,6 +912,20 @@ func init() {
 			w := GenWorkload(r, ctx.Corpus, 1, GenOpts{NoAllOf: r.Chance(2, 3)})
 			p := &c17Payload{W: w, Lang: Pick(r, []string{"go", "typescript", "python", "java", "php"}),
 				Sched: simrt.Schedule{Default: Pick(r, []simrt.Policy{simrt.Canonical, simrt.Reverse, simrt.Shuffle}), Seed: r.U64()}}
+			if idx%8 == 5 {
+				// the composition scenario, its compose rule being the first step of the history
+				sr := r.Side("compose-scenario")
+				cw := GenComposeWorkload(sr)
+				delete(cw.Files, "cfg/veneers/compose.yaml")
+				cw.VeneerDirs = nil
+				p.W = cw
+				first := RuleSpec{Scope: "builder", Kind: "compose", SelKind: "by_variant", SelA: "panelcfg", Source: "dashboard.Panel", FieldName: "type",
+					Map: [][2]string{{"Options", "options"}, {"FieldConfig", "fieldConfig.defaults.custom"}}, Flag: sr.Bool(), Lang: "all"}
+				if sr.Bool() {
+					first.As = "Panel"
+				}
+				p.Rules, p.Pkgs = []RuleSpec{first}, []string{"dashboard"}
+			}
 			found := c17Check(ctx, res, dir, p, r.Fork("rules"))
 			var kinds []string
 			for _, rs := range p.Rules {
